@@ -177,4 +177,21 @@ PROPS = {
         "require_counters": ["runs_REACHABLE_TRAD_FS", "runs_REACHABLE_TRAD_NOFS", "runs_REACHABLE_SATUR", "algorithm_agreements", "repeated_calls_same_forests"],
         "assumptions": ASSUME_COMMON,
     },
+    "C20": {
+        "rule": ("each case: random domain (<=64 states), boolean set forest (fully or quasi reduced) and identity-reduced relation "
+                 "forest with random policies; 1-3 rounds in the same forests: 1-6 random events (disjoint / overlapping supports, self "
+                 "loops, duplicates, events whose top variable is unchanged), 0-3 initial states; the events are handed to "
+                 "pregen_relation by events and by levels with every splittingOption (None, SplitOnly, SplitSubtract, SplitSubtractAll, "
+                 "MonolithicSplit; quick tier: 2-6 of the 6 modes per round, thorough: all); SATURATION_FORWARD result compared at "
+                 "every state with the explicit closure under the union, and by == with REACHABLE_TRAD_NOFS on the union relation; "
+                 "operands and events re-evaluated; forests audited (M1, M3).  non-trivial = closure strictly between init and "
+                 "everything; distinct = hash(shape, forests, union relation, init)"),
+        "passes": {
+            "quick": [P("main", "asan", 1500)],
+            "thorough": [P("main", "asan", 30000)],
+        },
+        "require_counters": ["runs_by-events", "runs_levels:None", "runs_levels:SplitOnly", "runs_levels:SplitSubtract", "runs_levels:SplitSubtractAll",
+                             "runs_levels:MonolithicSplit", "cases_all_events_top_unchanged"],
+        "assumptions": ASSUME_COMMON + ["relation forest identity-reduced (the rule sat_pregen.cc is written for)"],
+    },
 }
